@@ -240,6 +240,25 @@ def cases(ctx):
         am[2] = [[], [], [], []]
         am[4] = None
         yield "setrcode", [4, am, rng.choice([0, 1, 15, 16, 23, 4095, rng.randrange(4096)]), rng.randrange(16)]
+    # EDNS options whose code has a class of its own: octets the class accepts, rejects, or stores normalised
+    def opt_wire(options, extra=b""):
+        rd = b"".join(struct.pack("!HH", c, len(d)) + d for c, d in options) + extra
+        return (struct.pack("!HHHHHH", 79, 0x8000, 0, 0, 0, 1) + b"\x00" + struct.pack("!HHIH", g.OPT, 1232, 0, len(rd)) + rd)
+    for t in g.UTF8_GOOD + g.UTF8_BAD:
+        yield "parse:option-checks", [2, opt_wire([[rng.choice([22, 23, 24, 25]), t]]), None, 16]
+        yield "parse:option-checks", [2, opt_wire([[15, b"\x00\x12" + t]]), None, 16]
+    for n in (0, 7, 8, 9, 15, 16, 40, 41):
+        yield "parse:option-checks", [2, opt_wire([[10, bytes(range(n))]]), None, 16]
+    for family, src in ((1, 0), (1, 1), (1, 7), (1, 9), (1, 20), (1, 31), (1, 32), (1, 33), (2, 1), (2, 57), (2, 127), (2, 128), (2, 129),
+                        (0, 8), (3, 8)):
+        for scope in (0, src, 32, 128):
+            ecs = struct.pack("!HBB", family, src, scope) + b"\xff" * ((src + 7) // 8)
+            yield "parse:option-checks", [2, opt_wire([[8, ecs]]), None, 16]
+    for i in range(ctx.n(60, 600)):
+        ol = [g.gen_special_option(rng, valid=rng.random() < 0.5) for _ in range(rng.choice([1, 1, 2, 3]))]
+        if rng.random() < 0.2:
+            ol.insert(rng.randrange(len(ol) + 1), [rng.choice([12, 65001, 18]), b"\x01\x61\x00"])
+        yield "parse:option-checks", [2, opt_wire(ol, rng.choice([b"", b"", b"", b"\x00", b"\x00\x03\x00"])), None, 16]
 
 
 def builder_messages(rng):
@@ -616,5 +635,7 @@ def extra(ctx):
             F.append({"kind": "table", "what": f"model table {name} differs from dns/rdtypes/{sub}", "got": sorted(codes)})
     if g.SPECIAL_OPTIONS != table("special_options"):
         F.append({"kind": "table", "what": "model table special_options differs from dns.edns._type_to_class"})
+    if g.UNMODELLED_OPTIONS != table("unmodelled_options"):
+        F.append({"kind": "table", "what": "model table unmodelled_options differs from msggen.UNMODELLED_OPTIONS"})
     ctx.notes["extra_evaluations"] = 3
     return F
